@@ -302,3 +302,44 @@ Proof.
   intros cs rest H. unfold decode_name, write_string. rewrite vec_bytes_roundtrip.
   rewrite utf8_roundtrip by exact H. reflexivity.
 Qed.
+
+(** ** Payloads of the code and export sections: count-prefixed lists of any length are recovered exactly. *)
+Lemma decode_sized_items_write : forall bodies rest,
+    decode_sized_items (length bodies) (flat_map write_bytes_vec bodies ++ rest) = Some (bodies, rest).
+Proof.
+  induction bodies as [|b bodies IH]; intros rest; [reflexivity|].
+  cbn [length flat_map decode_sized_items]. rewrite <- app_assoc. rewrite vec_bytes_roundtrip. rewrite IH. reflexivity.
+Qed.
+
+Theorem code_section_roundtrip : forall bodies,
+    decode_code_section (write_code_payload bodies) = Some bodies.
+Proof.
+  intros bodies. unfold decode_code_section, write_code_payload.
+  rewrite unsigned_roundtrip by lia.
+  destruct (Z.ltb_spec (Z.of_nat (length bodies)) 0) as [Hn|_]; [lia|].
+  rewrite Nat2Z.id. rewrite <- (app_nil_r (flat_map write_bytes_vec bodies)).
+  rewrite decode_sized_items_write. reflexivity.
+Qed.
+
+Definition export_ok (e : list Z * Z * Z) : bool := forallb is_scalar_value (fst (fst e)) && (0 <=? snd e).
+
+Lemma decode_exports_write : forall es rest, forallb export_ok es = true ->
+    decode_exports (length es) (flat_map write_export es ++ rest) = Some (es, rest).
+Proof.
+  induction es as [|[[nm kind] idx] es IH]; intros rest Hok; [reflexivity|].
+  cbn [forallb] in Hok. apply andb_true_iff in Hok as [He Hes].
+  unfold export_ok in He. cbn [fst snd] in He. apply andb_true_iff in He as [Hnm Hidx]. apply Z.leb_le in Hidx.
+  cbn [length flat_map decode_exports]. unfold write_export at 1. cbn [fst snd].
+  rewrite <- !app_assoc. rewrite name_roundtrip by exact Hnm.
+  cbn [app]. rewrite unsigned_roundtrip by exact Hidx. rewrite IH by exact Hes. reflexivity.
+Qed.
+
+Theorem export_section_roundtrip : forall es, forallb export_ok es = true ->
+    decode_export_section (write_export_payload es) = Some es.
+Proof.
+  intros es Hok. unfold decode_export_section, write_export_payload.
+  rewrite unsigned_roundtrip by lia.
+  destruct (Z.ltb_spec (Z.of_nat (length es)) 0) as [Hn|_]; [lia|].
+  rewrite Nat2Z.id. rewrite <- (app_nil_r (flat_map write_export es)).
+  rewrite decode_exports_write by exact Hok. reflexivity.
+Qed.
